@@ -43,7 +43,7 @@ Proof.
   destruct (fl flags F_DONTBIND) eqn:Edb; [intros; discriminate|].
   (* bindBufferMemory / bindImageMemory with localOffset 0 *)
   unfold bind_memory. rewrite (get_alloc_slot _ _ _ Sa).
-  destruct (id =? 0); [er_done|]. destruct Sa as (Sn & Sal). rewrite Sal. cbn [negb].
+  destruct (id =? 0); [er_done|]. destruct Sa as (Sn & Sal). rewrite Sal. cbn [negb]. change (0 <? 0) with false. cbn iota.
   destruct (find_offset_valid c v3 s a I3 (conj Sn Sal)) as (o & d & Ho & Hf & O1 & O2 & O3 & O4).
   assert (Hkind : a_kind a = 1 \/ a_kind a = 2).
   { destruct (vi_slots _ _ _ _ I3 s _ (conj Sn Sal) ltac:(intros [])) as [(K & _)|(K & _)]; auto. }
